@@ -559,6 +559,18 @@ func Files() []FileSpec {
 			sc.m.Extension = append(sc.m.Extension, mkField(b, "x_em", 102, Opt, M, fopt{typeName: wkt("Empty"), extendee: "Extendable"}))
 			sc.m.Extension = append(sc.m.Extension, mkField(b, "x_nv", 103, Opt, kindByName("enum"), fopt{typeName: wkt("NullValue"), extendee: "Extendable"}))
 		}})
+	out = append(out, FileSpec{Name: "p2extreq", Syntax: "proto2", Cells: "proto2: an extension whose value is a message with a required field (required-field enforcement in the extension position)",
+		build: func(b *fb) {
+			rc := b.msg("ReqChild")
+			rc.field("a", 1, Req, kindByName("int32"), fopt{})
+			rc.field("s", 2, Opt, kindByName("string"), fopt{})
+			x := b.msg("Extendable")
+			x.field("base", 1, Opt, kindByName("int32"), fopt{})
+			x.m.ExtensionRange = append(x.m.ExtensionRange, &descriptorpb.DescriptorProto_ExtensionRange{Start: proto.Int32(100), End: proto.Int32(200)})
+			sc := b.msg("ExtScope")
+			sc.m.Extension = append(sc.m.Extension, mkField(b, "x_req", 100, Opt, kindByName("message"), fopt{typeName: "ReqChild", extendee: "Extendable"}))
+			sc.m.Extension = append(sc.m.Extension, mkField(b, "x_plain", 101, Opt, kindByName("int32"), fopt{extendee: "Extendable"}))
+		}})
 	nestedTypes := func(b *fb, proto2 bool) {
 		E := kindByName("enum")
 		M := kindByName("message")
